@@ -617,32 +617,42 @@ class MPSBackendImpl:
         return results
 
 
-def permute_bitstrings(results: Results, perm: torch.Tensor) -> None:
-    if "bitstrings" not in results.get_result_tags():
-        return
-    uuid_bs = results._find_uuid("bitstrings")
-
-    results._results[uuid_bs] = [
-        Counter({optimat.permute_string(bstr, perm): c for bstr, c in bs_counter.items()})
-        for bs_counter in results._results[uuid_bs]
+def _result_tags_of(results: Results, base_tag: str) -> list[str]:
+    """Tags under which results of one observable kind are stored: an observable
+    created with `tag_suffix` stores its results under `f"{base_tag}_{tag_suffix}"`."""
+    return [
+        tag
+        for tag in results.get_result_tags()
+        if tag == base_tag or tag.startswith(base_tag + "_")
     ]
 
 
-def permute_occupations_and_correlations(results: Results, perm: torch.Tensor) -> None:
-    for corr in ["occupation", "correlation_matrix"]:
-        if corr not in results.get_result_tags():
-            continue
+def permute_bitstrings(results: Results, perm: torch.Tensor) -> None:
+    for tag in _result_tags_of(results, "bitstrings"):
+        uuid_bs = results._find_uuid(tag)
 
-        uuid_corr = results._find_uuid(corr)
-        corrs = results._results[uuid_corr]
-        results._results[uuid_corr] = (
-            [  # vector quantities become lists after results are serialized (e.g. for checkpoints)
-                optimat.permute_tensor(
-                    corr if isinstance(corr, torch.Tensor) else torch.tensor(corr), perm
-                )
-                for corr in corrs
-            ]
-        )
+        results._results[uuid_bs] = [
+            Counter(
+                {optimat.permute_string(bstr, perm): c for bstr, c in bs_counter.items()}
+            )
+            for bs_counter in results._results[uuid_bs]
+        ]
+
+
+def permute_occupations_and_correlations(results: Results, perm: torch.Tensor) -> None:
+    for base_tag in ["occupation", "correlation_matrix"]:
+        for tag in _result_tags_of(results, base_tag):
+            uuid_corr = results._find_uuid(tag)
+            corrs = results._results[uuid_corr]
+            results._results[uuid_corr] = (
+                [  # vector quantities become lists after results are serialized (e.g. for checkpoints)
+                    optimat.permute_tensor(
+                        corr if isinstance(corr, torch.Tensor) else torch.tensor(corr),
+                        perm,
+                    )
+                    for corr in corrs
+                ]
+            )
 
 
 def permute_atom_order(results: Results, perm: torch.Tensor) -> None:
